@@ -496,6 +496,7 @@ def serial_case(driver, seed, part, i, res):
         for k in range(3):
             frames.append((round(tail_t + 0.15 * k, 6), 16, 0x6100 + 2 * k * 256 + 0x100 * 0 + (k + 1)))
     queues = {}
+    detached = []
     left = {}
     after_leave = []
     got = {k: [] for k in range(len(subs))}
@@ -515,7 +516,12 @@ def serial_case(driver, seed, part, i, res):
             while not q.empty():
                 got[k].append((w.now, q.get_nowait()))
             # unsubscribe through the registry's own method (the parent holds a strong reference, so dropping the child is not enough)
-            d._protocol.queue_rx_dali.del_handler(q)
+            proto = getattr(d, "_protocol", None)
+            parent = getattr(proto, "queue_rx_dali", None)
+            if parent is None or not hasattr(parent, "del_handler"):
+                detached.append("the receive queue registry is not reachable the way the harness unsubscribes from it")
+                return
+            parent.del_handler(q)
             left[k] = q
         for k, (j, l) in enumerate(subs):
             w.at(j, lambda k=k: join(k))
@@ -541,6 +547,10 @@ def serial_case(driver, seed, part, i, res):
         return True
 
     out, stalled = sim.run(main)
+    if detached:
+        res.inconclusive.append("harness detached: " + detached[0])
+        sim.close()
+        return
     res.evaluations += 1
     res.hit("serial_histories")
     res.digests.add(digest(driver, frames, subs, [str(c) for c in own]))
